@@ -214,6 +214,9 @@ func (c *Ctx) nonNilErr(t *core.Term) bool {
 func (c *Ctx) globalInitOnly(g *ssa.Global) bool {
 	n := 0
 	for _, fn := range c.P.FuncList {
+		if fn.Synthetic != "" && fn.Name() == "init" {
+			continue
+		}
 		for _, b := range fn.Blocks {
 			for _, in := range b.Instrs {
 				if st, ok := in.(*ssa.Store); ok && st.Addr == ssa.Value(g) {
